@@ -47,7 +47,7 @@ ALLOWED = {
     'XMLDocParser.print_if_verbose': {'print'},
     'pybind_wrap:main': {'open'},
 }
-NO_ENCODING_KNOWN = {'MatlabWrapper.__init__', 'MatlabWrapper.generate_content', 'MatlabWrapper.wrap'}
+NO_ENCODING_KNOWN = set()
 
 
 def effects(rep):
@@ -138,7 +138,7 @@ def subprocess_runs(rep):
         with open(a, 'w', encoding='utf-8') as f:
             f.write(TEXT_A)
         with open(b, 'w', encoding='utf-8') as f:
-            f.write(TEXT_B.replace('caf\\u00e9', 'cafe'))
+            f.write(TEXT_B.replace('caf\\u00e9', 'caf\u00e9'))
         drv = os.path.join(base, 'drv.py')
         with open(drv, 'w') as f:
             f.write(DRIVER)
